@@ -62,6 +62,9 @@ demo("character cell", "CharTrace", ev, [
     ("reported entropy (mantissa + 1)", lambda e: e[0]["ent"].__setitem__("m", e[0]["ent"]["m"] + 2)),
     ("Alphabet() (drop last character)", lambda e: e[0]["alpha"].pop()),
     ("exact count (+1)", lambda e: e[0]["count"].__setitem__(0, e[0]["count"][0] + 1 if e[0]["count"] else 1)),
+    ("limits differed during the call (cfg = 1)", lambda e: e[leaf_ok].__setitem__("cfg", 1)),
+    ("Atoms() (one value dropped)", lambda e: e[leaf_ok]["res"]["atoms"].pop()),
+    ("an error value that changed later (errChg = 1)", lambda e: e[0].__setitem__("errChg", 1)),
 ])
 # wordlist cell
 ws = [wlfam.tree_scen(rng, uniform_only=True, budget=300) for _ in range(1)]
@@ -76,6 +79,31 @@ demo("wordlist cell", "WordTrace", ev, [
     ("kept list (drop a word)", lambda e: (e[0]["kept"].pop(), e[0]["keptTitles"].pop())),
     ("Size() + 1", lambda e: e[0].__setitem__("size", e[0]["size"] + 1)),
     ("entropy exponent + 1", lambda e: e[0]["ent"].__setitem__("e", e[0]["ent"]["e"] + 1)),
+    ("product of the run's draw bounds (1: the run itself likelier than 2^-Entropy)", lambda e: (e[li].__setitem__("pp", [1]), e[li].__setitem__("ppc", 1))),
+    ("Separators() (a value added)", lambda e: e[li]["res"]["seps"].append([45])),
+])
+# sampled marginals
+ms = wlfam.marg_scenarios()[2:3]
+sf = ctx.path("bind-marg.ndjson")
+open(sf, "w").write(json.dumps(ms[0]) + "\n")
+ctx.drv("marg", "-seed", 1, "-scen", sf, "-out", ctx.path("bind-marg-out.ndjson"))
+ev = vlib.read_ndjson(ctx.path("bind-marg-out.ndjson"))
+
+
+def skew(e):
+    m = e[0]["mod8"][3]
+    m[0] += 1500
+    m[1] -= 1500
+
+
+demo("sampled marginals", "MargTrace", ev, [
+    ("one position: 1500 of 20000 samples moved to another word", skew),
+    ("a symbol outside the list", lambda e: e[0].__setitem__("foreign", 1)),
+])
+# bounded draw: pair rule and a draw that does not end
+pair = dict(op="pair", n=[0, 0, 3], k=0, w1=[5], w2=[5, 0, 3], used1=1, used2=2, kind1="ok", kind2="ok", res1=[5], res2=[7])
+demo("two raw words at one position", "DrawTrace", [pair], [
+    ("x + n accepted too, same result", lambda e: (e[0].__setitem__("used2", 1), e[0].__setitem__("res2", [5]))),
 ])
 # token round trip
 files, _ = tokfam.run(ctx, [dict(op="rt", toks=[dict(v=[97, 233], t=1), dict(v=[45], t=0), dict(v=[128512], t=1)])], "bindt")
